@@ -132,6 +132,11 @@ def run(rep, F, ctx):
     rep.rule('EFFECT', 'the XDG *_dir / *_dirs functions reach no IO API (they only read environment variables)')
     for fn in sorted(table):
         absrules.effect(rep, F, cg, fn, absrules.IO_EFFECT, '%s performs no IO' % fn.split('::')[-1], key='effect:%s' % fn.split('::')[-1])
+    import primtable as _pt
+    _pt.prim_table(rep, F, cg, engine.load_table('primitives.json'), _pt.GROUPS['C18'])
+    import siteguard as _sg
+    _t = engine.load_table('site_guards.json')
+    _sg.site_guard(rep, F, cg, _t, _t['_groups']['C18'])
     return engine.finish(
         rep, 'other', EXPLANATION,
         assumptions=['tables/env_table.json transcribes the XDG base directory specification as documented in sys::user'],
